@@ -209,9 +209,15 @@ def rng(ctx, mir, o, depth=0):
             return (0, 2**63 - 1)
         if c.endswith("::len") or c.endswith("::count") or c.endswith("unset_bits"):
             return (0, 2**63 - 1)
-        if c.endswith("convert::From::from") or re.search(r"<impl std::convert::From<\w+> for \w+>::from$", c):
+        if c.endswith("convert::From::from") or re.search(r"<impl std::convert::From<[\w:]+> for \w+>::from$", c):
             # lossless integer widening: the argument's range
             a = rng(ctx, mir, d["args"][0], depth + 1) if d.get("args") else None
+            if a is None and d.get("args"):
+                # `u8::from(enum)` (num_enum's IntoPrimitive: the discriminant): the enum's largest discriminant bounds it
+                a0 = d["args"][0]
+                aty = a0.get("ty") or local_ty(mir, (a0.get("p") or {}).get("l"))
+                if aty in ctx.enum_max and reach.owner_of(c) in ctx.G.local:
+                    a = ctx.enum_max[aty]
             if a is not None and tr is not None and a[0] >= tr[0] and a[1] <= tr[1]:
                 return a
         if reach.owner_of(c) in ctx.G.local:
